@@ -110,3 +110,19 @@ Proof. exact (conj M_wf M_allowed). Qed.
 Example C12_exclusive_rejects :
   allowed P0 Mctx (OBatch (Mb ++ [REQ 2 1 [77] 5 [] [15] 0 11 false false 0])) = false.
 Proof. vm_compute. reflexivity. Qed.
+
+(** Remark (round locality).  [allowed P C o] is a function of the parameters and of ONE context:
+    the outcome of a maintenance round may depend on that round's scheduler context only, not on
+    earlier rounds, although the real Drummer keeps one scheduler object for its lifetime.  The
+    correspondence check therefore also runs SEQUENCES of related contexts on one long-lived
+    scheduler object and judges every round against its own context.  Example: the restore
+    request of round 1 (members {1,2,3}) is not an allowed outcome of round 2 (members {2,3,4}). *)
+Example C12_round_local :
+  allowed P0 S1ctx (OBatch S1b) = true ∧ allowed P0 S2ctx (OBatch S2b) = true ∧
+  allowed P0 S2ctx (OBatch S1b) = false.
+Proof. exact S_rounds. Qed.
+(** "a persisted log for exactly that replica": ids that merely agree modulo 100000 do not count *)
+Example C12_exact_log_big_ids :
+  allowed P0 Bctx (OBatch [REQ 0 100 [1;2;7300003] 0 [1;2;7300003] [11;12;13] 7300003 13 false true 7]) = false ∧
+  allowed P0 Bctx (OBatch [REQ 2 100 [77] 5 [] [15] 0 11 false false 0]) = true.
+Proof. exact B_big_ids. Qed.
